@@ -1,12 +1,24 @@
 //! probe: compile ASN.1 from stdin (modules separated by a line `----`) and print the result.
+//! `probe --compile-stdout [--ts] FILE..`: call compile() with OutputMode::Stdout on the files (C20).
 use std::io::Read;
 use verif_harness::util::*;
 fn main() {
     scrub_env();
+    let args: Vec<String> = std::env::args().skip(1).collect();
+    let ts = args.iter().any(|a| a == "--ts");
+    if args.iter().any(|a| a == "--compile-stdout") {
+        use rasn_compiler::prelude::*;
+        let files: Vec<std::path::PathBuf> = args.iter().filter(|a| !a.starts_with("--")).map(std::path::PathBuf::from).collect();
+        let r = if ts {
+            Compiler::<TypescriptBackend, _>::new().add_asn_sources_by_path(files.into_iter()).set_output_mode(rasn_compiler::OutputMode::Stdout).compile().map(|_| ())
+        } else {
+            Compiler::<RasnBackend, _>::new().add_asn_sources_by_path(files.into_iter()).set_output_mode(rasn_compiler::OutputMode::Stdout).compile().map(|_| ())
+        };
+        std::process::exit(if r.is_ok() { 0 } else { 1 });
+    }
     let mut s = String::new();
     std::io::stdin().read_to_string(&mut s).unwrap();
     let srcs: Vec<String> = s.split("\n----\n").map(|x| x.to_string()).collect();
-    let ts = std::env::args().any(|a| a == "--ts");
     let out = if ts { compile_ts(&srcs) } else { compile_rasn(&srcs) };
     match out {
         Outcome::Ok { generated, warnings } => {
